@@ -744,6 +744,7 @@ def poolsize(run, fx, maxlev=8):
     so = so[0]
     fj = fx.one('graphite2::Segment::freeJustify')
     sj = fx.one('graphite2::Slot::setJustify')
+    gj = fx.one('graphite2::Slot::getJustify')
     PJ, PS, PG, PF = 'graphite2::SlotJustify::', 'graphite2::Slot::', 'graphite2::Segment::', 'graphite2::Silf::'
     jrec = fx.record('graphite2::SlotJustify')
     fields = [f['n'] for f in jrec['fields']]
@@ -804,6 +805,19 @@ def poolsize(run, fx, maxlev=8):
                     except O.Violation as v:
                         bad = ('Slot::setJustify(level %d, sub-index %d) on a font with %d justification level(s), record of SlotJustify::size_of(%d) = %d bytes (%d values): %s'
                                % (level, sub, L, L, S, cap, v.what), v.loc)
+                        break
+                    # the query side: a slot that carries a record answers from it -- for a level the font has
+                    rec2 = mkrec()
+                    slot2 = O.Rec()
+                    slot2[PS + 'm_justs'] = O.Ptr(rec2)
+                    slot2[PS + 'm_glyphid'] = 3
+                    it2 = O.Interp(fx, natives=nat)
+                    cases += 1
+                    try:
+                        it2.call(gj, slot2, [O.Ptr(mkseg()), level, sub])
+                    except O.Violation as v:
+                        bad = ('Slot::getJustify(level %d, sub-index %d) on a slot that carries a record, font with %d justification level(s), record of %d values: %s (gr_slot_attr with a '
+                               'justification attribute of a level the font does not have reads past the record)' % (level, sub, L, cap, v.what), v.loc)
                         break
                 if bad:
                     break
